@@ -2,10 +2,16 @@
     (primitive floats) against from_str / to_string of the crate fed with the JSON text. *)
 From G3 Require Export Run.PolyCommon Model.Json Model.PolyAux.
 From Coq Require Import String.
+From G3 Require Import Run.FastNum32.
 
 (** the parsed document (numbers as f64 = what `as_f64` hands to the deserialiser; strings and keys are
     never inspected by the modelled code and travel as empty strings) *)
+(** The runner text is written once, in a section over the number instance: [C20] on [NumF] (f64 build), [C20f32] on
+    [NumF32fast] (= [NumF32], Run/FastNum32Proof.v) for the build with `--features float` (there the numbers of the tree are
+    `as_f64() as Float`, i.e. already rounded to binary32 by the harness exactly as the crate's deserialiser does); bit for bit in both. *)
 Inductive JV := jnull | jbool (b : bool) | jnum (x : spec_float) | jstr | jarr (l : list JV) | jobj (l : list JV).
+Section WithInstance.
+Context {NK : Num float}.
 Fixpoint toV (j : JV) : Value K :=
   match j with
   | jnull => JNull | jbool b => JBool b | jnum x => JNumber (SF2Prim x) | jstr => JString EmptyString
@@ -62,6 +68,11 @@ Definition chk (c : N * JV * (LoopIn * list LoopIn * list spec_float) * ExpL * E
     else 0%N
   end.
 
+End WithInstance.
+
 Module C20.
-  Definition run := run_cases chk.
+  Definition run := run_cases (@chk NumF).
 End C20.
+Module C20f32.
+  Definition run := run_cases (@chk NumF32fast).
+End C20f32.
